@@ -402,6 +402,10 @@ struct World {
     pub_birth: BTreeMap<u32, BTreeSet<i64>>,
     pub_data: BTreeMap<u32, BTreeSet<i64>>,
     session_of_id: BTreeMap<i64, u64>,
+    /// payload timestamp of every message the node handed over, by id
+    ts_of_id: BTreeMap<i64, u64>,
+    /// payload timestamp of the NBIRTH the host holds
+    held_ts: Option<u64>,
     settling: bool,
     settle_pub: BTreeMap<u32, i64>,
     /// metric names of the latest birth payload of each object the node's client accepted
@@ -459,6 +463,8 @@ impl World {
             pub_birth: BTreeMap::new(),
             pub_data: BTreeMap::new(),
             session_of_id: BTreeMap::new(),
+            ts_of_id: BTreeMap::new(),
+            held_ts: None,
             settling: false,
             settle_pub: BTreeMap::new(),
             birth_names: BTreeMap::new(),
@@ -624,6 +630,7 @@ impl World {
             _ => dev_of_topic(&c.topic).unwrap_or(0),
         };
         if let Some(id) = id_of(&p) {
+            self.ts_of_id.insert(id, p.timestamp.unwrap_or(0));
             match c.kind {
                 Kind::NBirth | Kind::DBirth => {
                     self.pub_birth.entry(obj).or_default().insert(id);
@@ -920,6 +927,7 @@ impl World {
                         self.h_node = Some(true);
                         self.h_last.insert(0, args[0]);
                         self.held_session = self.session_of_id.get(&args[0]).copied();
+                        self.held_ts = self.ts_of_id.get(&args[0]).copied();
                     }
                 }
                 "nodeStale" => self.h_node = Some(false),
@@ -983,6 +991,20 @@ impl World {
 
     fn check_session(&mut self, out: &mut Out, what: &str, id: i64, here: &str) {
         if let Some(s) = self.session_of_id.get(&id).copied() {
+            // The host tells births apart by the payload timestamp only ("messages time-stamped before the
+            // current birth are discarded", C06): a message of an older node birth whose timestamp is NOT
+            // older than the held NBIRTH's (several births within one millisecond, delivered out of order)
+            // is indistinguishable for any host and is not "data from a session it has declared stale".
+            let older_by_ts = match (self.ts_of_id.get(&id), self.held_ts) {
+                (Some(t), Some(h)) => *t < h,
+                _ => true,
+            };
+            if !older_by_ts {
+                if self.held_session.map(|h| s < h).unwrap_or(false) {
+                    out.count("exercised:older-birth-message-with-same-or-newer-timestamp-applied");
+                }
+                return;
+            }
             match self.held_session {
                 Some(h) if s < h => out.fail(
                     "C08:no-data-from-stale-session",
